@@ -74,7 +74,7 @@ CLAIMED = {
    note="Printed time is read back with -j -z -f '%s.%f'; the relay sees every datagram so the facts are computed on the real server's responses.",
    technique="TLC on Client.tla; real client vs reference responder and real server; runs validated against Trace_Client.tla"),
  "C15": dict(level="model_checking", ref="6 C15",
-   text="Process.tla models main, workers, the configuration mutex (poisoning), the health-check bind, the reporter and the signal handler; TLC checks FullyServing and NeverKeepsRunningDegraded under fairness for N<=3 (the plain-bind variant violates both: self-test) and Server.tla for the worker loop. The real binary is started for example.cfg, a default-worker-count configuration and a sample of the documented option space; per run the per-thread hook logs are validated against Process.tla with one cursor per thread (TLC finds the interleaving; worker lock acquisitions are numbered under the mutex), and the observations (N workers serving, bursts answered, every simultaneous TCP health connection answered while time requests are served, no panic output, alive) are decided by the trace specification.",
+   text="Process.tla models main, workers, the configuration mutex (poisoning), the health-check bind, the reporter and the signal handler; TLC checks FullyServing and NeverKeepsRunningDegraded under fairness for N<=3 (the plain-bind variant violates both: self-test) and Server.tla for the worker loop; Health.tla models the edge-triggered health-check listener (accept until WouldBlock; one / bounded accepts per event strand connections: self-tests) and its connection schedules are replayed into an in-process Server through the hooks. The real binary is started for example.cfg, a default-worker-count configuration and a sample of the documented option space; per run the per-thread hook logs are validated against Process.tla with one cursor per thread (TLC finds the interleaving; worker lock acquisitions are numbered under the mutex), and the observations (N workers serving, bursts answered, every simultaneous TCP health connection answered while time requests are served, no panic output, alive) are decided by the trace specification.",
    note="Schedules of the real process are sampled; exhaustive only in the model. Ports picked by binding port 0 first.",
    technique="TLC liveness/safety on Process.tla; multi-cursor trace validation of the real binary's hook logs and observations"),
  "C18": dict(level="model_checking", ref="6 C18",
